@@ -458,6 +458,16 @@ func (rtcmHandler *Handler) GetMessage(bitStream []byte) (*Message, error) {
 
 		const timestampPosition = utils.LeaderLengthBits + header.LenMessageType + header.LenStationID
 
+		// The CRC check only shows that the frame is intact.  A very short
+		// message may not be long enough to contain a timestamp.
+		lenMessageInBits := messageLength * 8
+		if lenMessageInBits < header.LenMessageType+header.LenStationID+header.LenTimeStamp {
+			message.ErrorMessage = fmt.Sprintf(
+				"message type %d is %d bits long, too short to contain a timestamp",
+				message.MessageType, lenMessageInBits)
+			return message, errors.New(message.ErrorMessage)
+		}
+
 		message.Timestamp =
 			uint(utils.GetBitsAsUint64(bitStream, timestampPosition, header.LenTimeStamp))
 
